@@ -272,7 +272,7 @@ func (db *DB) replayAndSetupWriteAheadLog() error {
 		log.Printf("done replaying WAL in %v with %d records\n", elapsedDuration, numRecords)
 	}
 
-	err = os.RemoveAll(walBasePath)
+	err = removeWalOldestFirst(walBasePath)
 	if err != nil {
 		return err
 	}
@@ -289,4 +289,24 @@ func (db *DB) replayAndSetupWriteAheadLog() error {
 	}
 	db.wal = writeAheadLog
 	return nil
+}
+
+// removeWalOldestFirst removes the log files in replay order and the directory last. os.RemoveAll removes in directory
+// listing order: a crash in between could leave an older file without the newer ones, and replaying that file on top of the
+// table that was just flushed would bring back overwritten values. What is left of an interrupted removal here is always a
+// suffix of the log, replaying it again changes nothing.
+func removeWalOldestFirst(walBasePath string) error {
+	entries, err := os.ReadDir(walBasePath) // sorted by file name, which is the order of the log
+	if err != nil {
+		return err
+	}
+
+	for _, e := range entries {
+		err = os.RemoveAll(filepath.Join(walBasePath, e.Name()))
+		if err != nil {
+			return err
+		}
+	}
+
+	return os.RemoveAll(walBasePath)
 }
